@@ -61,6 +61,26 @@ func (m *memConn) SetDeadline(time.Time) error      { return nil }
 func (m *memConn) SetReadDeadline(time.Time) error  { return nil }
 func (m *memConn) SetWriteDeadline(time.Time) error { return nil }
 
+// failConn: a connection whose Write fails once, after `budget` bytes in total (a write deadline that expires)
+type failConn struct {
+	memConn
+	budget int
+	failed bool
+}
+
+func (f *failConn) Write(p []byte) (int, error) {
+	if !f.failed && f.w.Len()+len(p) > f.budget {
+		n := f.budget - f.w.Len()
+		if n < 0 {
+			n = 0
+		}
+		f.w.Write(p[:n])
+		f.failed = true
+		return n, os.ErrDeadlineExceeded
+	}
+	return f.w.Write(p)
+}
+
 type oneListener struct {
 	c    net.Conn
 	done bool
@@ -586,6 +606,113 @@ func main() {
 		}
 	}
 
+	// listenCodec: a client stream through transport.ListenCodec(codec): the tag is read with Codec.ReadHeader.
+	listenCodec := func(kind string, cid int, wire []byte, want [][]byte, wantErr int) {
+		c.Obs.Evaluations++
+		mc := &memConn{r: &tx.ChunkReader{Data: wire, Rng: c.Rng.Fork()}}
+		var frames [][]byte
+		k, arg := tx.KOk, int64(0)
+		p, pv := hx.Recover(func() {
+			conn, err := transport.ListenCodec(func() transport.Codec { return tx.NewCodec(cid, 0) }, &oneListener{c: mc}).Accept()
+			if err != nil {
+				k, arg = tx.Project(err)
+				return
+			}
+			b := &bin.Buffer{}
+			for {
+				if err := conn.Recv(context.Background(), b); err != nil {
+					k, arg = tx.Project(err)
+					return
+				}
+				frames = append(frames, append([]byte{}, b.Buf...))
+			}
+		})
+		if p {
+			k = tx.KPanic
+		}
+		c.Count(fmt.Sprintf("%s:%s:%s", kind, tx.CodecNames[cid], tx.KindNames[k]))
+		js := map[string]interface{}{"listen_codec": cid, "accept": ints(wire)}
+		sh, ix := c.Case(fmt.Sprintf("(CListenCodec %d %s %s (%d, %s))", cid, tx.HB(wire), hbList(frames), k, hx.Z(arg)), js)
+		if verbose {
+			fmt.Printf("replay: ListenCodec(%s) stream %v -> %d frames then %s(%d) %v\n", tx.CodecNames[cid], wire, len(frames), tx.KindNames[k], arg, pv)
+		}
+		c.Nontrivial(fmt.Sprintf("listencodec/%d/%x", cid, wire))
+		ok := !p && k == wantErr && len(frames) == len(want)
+		for i := 0; ok && i < len(want); i++ {
+			ok = bytes.Equal(frames[i], want[i])
+		}
+		if wantErr >= 0 && !ok {
+			c.Violate("listen-codec-header", fmt.Sprintf("ListenCodec(%s) on a stream starting %x: %d frames then %s(%d), expected %d frames then %s",
+				tx.CodecNames[cid], wire[:min(len(wire), 4)], len(frames), tx.KindNames[k], arg, len(want), tx.KindNames[wantErr]), sh, ix, js)
+		}
+	}
+
+	// torn: a conn.Write fails in the middle of frame number `good` (write deadline); the frames
+	// sent before it must still be delivered, whatever happens afterwards.
+	torn := func(cid int, good int) {
+		c.Obs.Evaluations++
+		var ps [][]byte
+		for i := 0; i < good+3; i++ {
+			ps = append(ps, genPayload(4*c.Rng.Range(2, 30), c.Rng.Intn(256)))
+		}
+		// dry run for the frame boundaries
+		var dry bytes.Buffer
+		dry.Write(headerOf(cid))
+		dw := tx.NewCodec(cid, 0)
+		var ends []int
+		for _, p := range ps {
+			_ = dw.Write(&dry, &bin.Buffer{Buf: append([]byte{}, p...)})
+			ends = append(ends, dry.Len())
+		}
+		start := len(headerOf(cid))
+		if good > 0 {
+			start = ends[good-1]
+		}
+		fc := &failConn{budget: start + c.Rng.Intn(ends[good]-start)}
+		conn, err := protocols[cid].Handshake(fc)
+		if err != nil {
+			c.Violate("concurrent-setup", err.Error(), -1, 0, nil)
+			return
+		}
+		var errs []bool
+		for _, p := range ps {
+			errs = append(errs, conn.Send(context.Background(), &bin.Buffer{Buf: append([]byte{}, p...)}) != nil)
+		}
+		wire := fc.w.Bytes()
+		body := wire[min(len(headerOf(cid)), len(wire)):]
+		frames, _, _, _ := readAll(tx.NewCodec(cid, 0), bytes.NewReader(body))
+		c.Count(fmt.Sprintf("torn:%s:good=%d", tx.CodecNames[cid], good))
+		rnds := make([][]byte, good)
+		off := 0
+		for i := 0; i < good; i++ {
+			rnds[i] = make([]byte, 4)
+			if cid == tx.Padded && off+4 <= len(body) {
+				fl := int(binary.LittleEndian.Uint32(body[off:]))
+				if fl >= len(ps[i]) && off+4+fl <= len(body) {
+					copy(rnds[i], body[off+4+len(ps[i]):off+4+fl])
+				}
+				off += 4 + fl
+			}
+		}
+		js := map[string]interface{}{"torn": cid, "good": good}
+		sh, ix := c.Case(fmt.Sprintf("(CPrefix %d 0 %s %s %s)", cid, hbList(rnds), hbList(ps[:good]), tx.HB(body)), js)
+		c.Nontrivial(fmt.Sprintf("torn/%d/%d/%d", cid, good, fc.budget))
+		ok := len(frames) >= good
+		for i := 0; ok && i < good; i++ {
+			ok = bytes.Equal(frames[i], ps[i])
+		}
+		for i := 0; i < good; i++ {
+			ok = ok && !errs[i]
+		}
+		if verbose {
+			fmt.Printf("replay: torn frame %d on %s: send errors %v, %d frames read\n", good, tx.CodecNames[cid], errs, len(frames))
+		}
+		if !ok || !errs[good] {
+			c.Violate("frames-before-failed-write-lost", fmt.Sprintf("%s: a conn.Write failed inside frame %d (send errors %v); the reader got %d frames and the %d frames sent before the failure are not all intact",
+				tx.CodecNames[cid], good, errs, len(frames), good), sh, ix, js)
+		}
+	}
+
 	raceCheck := func() {
 		// the race detector (GORACE=exitcode=0 log_path=race_report, see props/C16.json) writes its reports to files
 		if reps, _ := filepath.Glob(filepath.Join(c.Out, "race_report*")); len(reps) > 0 {
@@ -607,6 +734,9 @@ func main() {
 		Seq        int64   `json:"seq"`
 		Payloads   [][]int `json:"payloads"`
 		Accept     []int   `json:"accept"`
+		ListenC    *int    `json:"listen_codec"`
+		Torn       *int    `json:"torn"`
+		Good       int     `json:"good"`
 		Concurrent *int    `json:"concurrent"`
 		Senders    int     `json:"senders"`
 		PerSender  int     `json:"per_sender"`
@@ -617,6 +747,14 @@ func main() {
 		case rp.Concurrent != nil:
 			concurrent(*rp.Concurrent, rp.Senders, rp.PerSender)
 			raceCheck()
+		case rp.Torn != nil:
+			torn(*rp.Torn, rp.Good)
+		case rp.ListenC != nil:
+			b := make([]byte, len(rp.Accept))
+			for i, v := range rp.Accept {
+				b[i] = byte(v)
+			}
+			listenCodec("replay", *rp.ListenC, b, nil, -1)
 		case rp.Accept != nil:
 			b := make([]byte, len(rp.Accept))
 			for i, v := range rp.Accept {
@@ -782,6 +920,41 @@ func main() {
 	}
 
 	phase("accept")
+	// a full-codec frame of an unaligned payload (227 bytes: length word 0xef): detection takes it for abridged
+	{
+		var w bytes.Buffer
+		_ = tx.NewCodec(tx.Full, 0).Write(&w, &bin.Buffer{Buf: genPayload(227, -1)})
+		accept("accept:full-unaligned", w.Bytes(), -1, nil)
+	}
+	// ---------- listener with an explicit codec (Codec.ReadHeader) ----------
+	for cid := 0; cid < 4; cid++ {
+		for r := 0; r < c.N(6, 200); r++ {
+			var wire bytes.Buffer
+			wire.Write(headerOf(cid))
+			w := tx.NewCodec(cid, 0)
+			var ps [][]byte
+			for j := c.Rng.Range(0, 3); j > 0; j-- {
+				p := genPayload(4*c.Rng.Range(2, 20), -1)
+				ps = append(ps, p)
+				_ = w.Write(&wire, &bin.Buffer{Buf: append([]byte{}, p...)})
+			}
+			listenCodec("listen-codec", cid, wire.Bytes(), ps, tx.KEof)
+			if cid != tx.Full {
+				bad := append([]byte{}, wire.Bytes()...)
+				bad[c.Rng.Intn(len(headerOf(cid)))] ^= 1 << uint(c.Rng.Intn(8))
+				listenCodec("listen-codec-bad-tag", cid, bad, nil, tx.KHeader)
+				other := append(append([]byte{}, headerOf((cid+1)%3)...), wire.Bytes()[len(headerOf(cid)):]...)
+				listenCodec("listen-codec-other-tag", cid, other, nil, -1)
+				listenCodec("listen-codec-short", cid, headerOf(cid)[:c.Rng.Intn(len(headerOf(cid)))], nil, -1)
+			}
+		}
+	}
+	// ---------- a conn.Write that fails in the middle of a frame ----------
+	for cid := 0; cid < 4; cid++ {
+		for _, good := range []int{0, 1, 3} {
+			torn(cid, good)
+		}
+	}
 	// ---------- concurrent senders ----------
 	for cid := 0; cid < 4; cid++ {
 		for r := 0; r < c.N(2, 20); r++ {
